@@ -343,4 +343,74 @@ theorem shortestDistanceH_spec (net : Net W) (hnet : WFNet net) (h : Nat → W) 
       | some y =>
         obtain ⟨c, hc, _⟩ := hinv.a3 t y hd
         exact absurd ⟨c, hc⟩ hn
+
+/-! ### the flags an A* search leaves sit on nodes joined to the source (so: on nodes of `NODES`) -/
+
+theorem relaxOneH_pred (h : Nat → W) (u : Nat) (du : W) (st : St W) (e : Edge W) (z : Nat)
+    (hz : (relaxOneH h u du st e).pred z ≠ st.pred z) : ∃ y, (relaxOneH h u du st e).d z = some y := by
+  rcases relaxOneH_cases h u du st e with ⟨hR, _⟩ | ⟨hR, _⟩ | ⟨_, hR⟩
+  · rw [hR] at hz; exact absurd rfl hz
+  · rw [hR] at hz; exact absurd rfl hz
+  · rw [hR] at hz ⊢
+    by_cases hq : z = other e u
+    · exact ⟨du + e.w + h (other e u), by simp [hq]⟩
+    · simp [hq] at hz
+
+theorem relaxAllH_pred (h : Nat → W) (u : Nat) (du : W) (es : List (Edge W)) (st : St W) (z : Nat)
+    (hz : (es.foldl (relaxOneH h u du) st).pred z ≠ st.pred z) : ∃ y, (es.foldl (relaxOneH h u du) st).d z = some y := by
+  induction es generalizing st with
+  | nil => exact absurd rfl hz
+  | cons e es ih =>
+    simp only [List.foldl_cons] at hz ⊢
+    by_cases hq : (es.foldl (relaxOneH h u du) (relaxOneH h u du st e)).pred z = (relaxOneH h u du st e).pred z
+    · rw [hq] at hz
+      obtain ⟨y, hy⟩ := relaxOneH_pred h u du st e z hz
+      exact (relaxAllH_spec h u du es _).2.2.1 z y hy
+    · exact ih _ hq
+
+/-- every labelled node is joined to the source by a walk; settled nodes and nodes with a predecessor are labelled -/
+structure InvC (net : Net W) (s : Nat) (st : St W) : Prop where
+  c1 : ∀ v y, st.d v = some y → Reachable net s v
+  c2 : ∀ v, st.vis v = true → ∃ y, st.d v = some y
+  c3 : ∀ v p, st.pred v = some p → ∃ y, st.d v = some y
+
+theorem invC_init (net : Net W) (s : Nat) : InvC net s (St.init s) := by
+  refine ⟨?_, ?_, ?_⟩
+  · intro v y hv
+    simp only [St.init] at hv
+    split at hv
+    · rename_i hq; subst hq; exact ⟨0, Walk.nil⟩
+    · cases hv
+  · intro v hv; simp [St.init] at hv
+  · intro v p hv; simp [St.init] at hv
+
+theorem settleH_invC (net : Net W) (h : Nat → W) (s : Nat) (st : St W) (hinv : InvC net s st) (u : Nat) (du : W)
+    (hp : popMinAux st net.n = some (u, du)) : InvC net s (settleH net h st u du) := by
+  obtain ⟨_, _, hud, _⟩ := popMin_facts hp
+  obtain ⟨s1, s2, s3, s4, _⟩ := settleH_spec net h st u du hinv.c2 hud
+  refine ⟨?_, ?_, ?_⟩
+  · intro v y hv
+    rcases s4 v y hv with h' | ⟨e, he, h1, _⟩
+    · exact hinv.c1 v y h'
+    · obtain ⟨c, hc⟩ := hinv.c1 u du hud
+      exact ⟨c + e.w, Walk.snoc hc ((arc_iff_next net u v e.w).2 ⟨e, he, h1.symm, rfl⟩)⟩
+  · intro x hx
+    by_cases hxu : x = u
+    · subst hxu; exact ⟨du, by rw [s2 x (Or.inl rfl)]; exact hud⟩
+    · have hx_old : st.vis x = true := by rw [s1 x] at hx; simpa [hxu] using hx
+      obtain ⟨a, ha⟩ := hinv.c2 x hx_old
+      exact ⟨a, by rw [s2 x (Or.inr hx_old)]; exact ha⟩
+  · intro v p hv
+    by_cases hq : (settleH net h st u du).pred v = st.pred v
+    · rw [hq] at hv
+      obtain ⟨y, hy⟩ := hinv.c3 v p hv
+      exact s3 v y hy
+    · exact relaxAllH_pred h u du (nextEdges net u) { st with vis := fun z => if z = u then true else st.vis z } v hq
+
+/-- the flags left by `run_routing_forward` in A* mode are on nodes joined to the source only, whatever the heuristic -/
+theorem forwardH_invC (net : Net W) (h : Nat → W) (s : Nat) (tg : Option Nat) (cut : Option W) :
+    InvC net s (forwardH net h tg cut net.n (St.init s) []).1 := by
+  rw [forwardH_eq_loopG]
+  exact loopG_preserves _ _ (InvC net s) (fun st u du hi hp => settleH_invC net h s st hi u du hp) tg cut net.n _ _
+    (invC_init net s)
 end TV.Graph
